@@ -4,8 +4,10 @@ Tie, continued (see Props/Tie/DifflibGen.lean): statements for ALL inputs relati
 
   5. GetGroupedOpCodes relative to getOpCodes (`GetGroupedOpCodes_agrees`)
   6. chainB / NewMatcher: the `b2j` map agrees with `Difflib.b2j` for every element (`NewMatcher_b2j_agrees`)
+  7. findLongestMatch: the inner loop (`inner_sim`) and the outer loop (`outer_sim`) agree with the hand port's `inner` / `outer`
 -/
 import GoSnaps.Props.Tie.DifflibGen
+import GoSnaps.Lemmas.Difflib
 namespace GoSnaps.Tie.DifflibGen
 open GoSnaps GoSnaps.Generated GoSnaps.Generated.DifflibGen
 
@@ -498,5 +500,149 @@ theorem NewMatcher_fields (a b : List (List UInt8)) :
 theorem NewMatcher_b2j_agrees (a b : List (List UInt8)) (x : List UInt8) :
     GoDiff.mapGet (NewMatcher a b).b2j x [] = (Difflib.b2j b x).map (fun (i : Nat) => (i : Int)) := by
   rw [(NewMatcher_fields a b).1, chainB_b2j_agrees]
+
+/-! ## 7. findLongestMatch -/
+
+/-- a loop whose body cannot panic, with `break` (`done`) and `continue` (`yield`) -/
+def runSteps {α σ : Type} (g : σ → α → ForInStep σ) : List α → σ → σ
+  | [], s => s
+  | x :: xs, s => match g s x with
+    | .done s' => s'
+    | .yield s' => runSteps g xs s'
+
+theorem forIn_opt_steps {α σ : Type} (l : List α) (F : α → σ → Option (ForInStep σ)) (g : σ → α → ForInStep σ)
+    (hF : ∀ x s, F x s = some (g s x)) (s : σ) : forIn (m := Option) l s F = some (runSteps g l s) := by
+  induction l generalizing s with
+  | nil => rfl
+  | cons x xs ih =>
+    rw [List.forIn_cons, hF]
+    simp only [Option.bind_eq_bind, Option.bind_some, runSteps]
+    cases g s x with
+    | done s' => rfl
+    | yield s' => exact ih s'
+
+/-- the generated `map[int]int` against the hand port's association list with default 0 -/
+def R (mI : List (Int × Int)) (m : List (Nat × Nat)) : Prop :=
+  ∀ x : Int, GoDiff.mapGet mI x 0 = if x < 0 then 0 else ((Difflib.look m x.toNat : Nat) : Int)
+
+theorem R_nil : R [] [] := by intro x; simp [GoDiff.mapGet, Difflib.look]
+
+theorem R_set {mI : List (Int × Int)} {m : List (Nat × Nat)} (h : R mI m) (j k : Nat) :
+    R (GoDiff.mapSet mI (j : Int) (k : Int)) ((j, k) :: m) := by
+  intro x
+  rw [mapGet_mapSet, h x]
+  by_cases hx : x < 0
+  · have : ¬ ((j : Int) = x) := by omega
+    simp [hx, this]
+  · by_cases hj : (j : Int) = x
+    · subst hj
+      have h0 : ¬ ((j : Int) < 0) := by omega
+      simp [Difflib.look, h0]
+    · have : ¬ j = x.toNat := by omega
+      simp [hx, hj, Difflib.look, this]
+
+abbrev FSt := Int × Int × Int × List (Int × Int)
+
+def stI (best : Difflib.Match) (nwI : List (Int × Int)) : FSt := ((best.i : Int), (best.j : Int), (best.k : Int), nwI)
+
+/-- the body of the inner loop of `findLongestMatch` -/
+def innerStepI (blo bhi i : Int) (jl : List (Int × Int)) (s : FSt) (j : Int) : ForInStep FSt :=
+  if j < blo then .yield s
+  else if j ≥ bhi then .done s
+  else if GoDiff.mapGet jl (j - 1) 0 + 1 > s.2.2.1 then
+    .yield (i - (GoDiff.mapGet jl (j - 1) 0 + 1) + 1, j - (GoDiff.mapGet jl (j - 1) 0 + 1) + 1,
+      GoDiff.mapGet jl (j - 1) 0 + 1, GoDiff.mapSet s.2.2.2 j (GoDiff.mapGet jl (j - 1) 0 + 1))
+  else .yield (s.1, s.2.1, s.2.2.1, GoDiff.mapSet s.2.2.2 j (GoDiff.mapGet jl (j - 1) 0 + 1))
+
+/-- **the inner loop agrees with the hand port's `inner`** (the bounds on `j2len` hold by `Difflib.look_ok`) -/
+theorem inner_sim (blo bhi i : Nat) (j2len : List (Nat × Nat)) (jl : List (Int × Int)) (hR : R jl j2len)
+    (hb : ∀ j', Difflib.look j2len j' ≤ i ∧ Difflib.look j2len j' ≤ j' + 1)
+    (js : List Nat) (nw : List (Nat × Nat)) (nwI : List (Int × Int)) (hnw : R nwI nw) (best : Difflib.Match) :
+    ∃ nwI', runSteps (innerStepI blo bhi i jl) (js.map (fun (j : Nat) => (j : Int))) (stI best nwI) =
+        stI (Difflib.inner blo bhi i j2len js nw best).2 nwI' ∧ R nwI' (Difflib.inner blo bhi i j2len js nw best).1 := by
+  induction js generalizing nw nwI best with
+  | nil => exact ⟨nwI, rfl, hnw⟩
+  | cons j js ih =>
+    rw [List.map_cons, runSteps, Difflib.inner]
+    by_cases h1 : j < blo
+    · have h1' : (j : Int) < blo := by omega
+      simp only [innerStepI, h1', if_true, h1]
+      exact ih nw nwI hnw best
+    · have h1' : ¬ ((j : Int) < blo) := by omega
+      by_cases h2 : bhi ≤ j
+      · have h2' : (j : Int) ≥ bhi := by omega
+        simp only [innerStepI, h1', if_false, h2', if_true, h1, h2]
+        exact ⟨nwI, rfl, hnw⟩
+      · have h2' : ¬ ((j : Int) ≥ bhi) := by omega
+        -- k
+        have hk : GoDiff.mapGet jl ((j : Int) - 1) 0 + 1 =
+            (((if j = 0 then 0 else Difflib.look j2len (j - 1)) + 1 : Nat) : Int) := by
+          rw [hR]
+          by_cases hj : j = 0
+          · subst hj; simp
+          · have : ¬ ((j : Int) - 1 < 0) := by omega
+            have e : ((j : Int) - 1).toNat = j - 1 := by omega
+            simp [this, e, hj]
+        have hkb : (if j = 0 then 0 else Difflib.look j2len (j - 1)) + 1 ≤ i + 1 ∧
+            (if j = 0 then 0 else Difflib.look j2len (j - 1)) + 1 ≤ j + 1 := by
+          by_cases hj : j = 0
+          · simp [hj]
+          · have := hb (j - 1); simp only [hj, if_false]; omega
+        simp only [innerStepI, h1', if_false, h2', h1, h2, hk]
+        generalize (if j = 0 then 0 else Difflib.look j2len (j - 1)) + 1 = k at hkb ⊢
+        by_cases h3 : best.k < k
+        · have h3' : (k : Int) > (stI best nwI).2.2.1 := by simp only [stI]; omega
+          simp only [h3', if_true, h3]
+          have e : (((i : Int) - k + 1, (j : Int) - k + 1, (k : Int), GoDiff.mapSet (stI best nwI).2.2.2 j k) : FSt) =
+              stI ⟨i + 1 - k, j + 1 - k, k⟩ (GoDiff.mapSet nwI j k) := by
+            simp only [stI]; refine Prod.ext ?_ (Prod.ext ?_ rfl) <;> simp <;> omega
+          rw [e]
+          exact ih _ _ (R_set hnw j k) _
+        · have h3' : ¬ ((k : Int) > (stI best nwI).2.2.1) := by simp only [stI]; omega
+          simp only [h3', if_false, h3]
+          exact ih _ _ (R_set hnw j k) _
+
+theorem look_bounds {a b : List (List UInt8)} {alo blo bhi i : Nat} {j2len : List (Nat × Nat)} (hi : alo ≤ i)
+    (hprev : i = alo → j2len = []) (hm : 1 ≤ i → Difflib.MapOK a b alo blo bhi (i - 1) j2len) (j' : Nat) :
+    Difflib.look j2len j' ≤ i ∧ Difflib.look j2len j' ≤ j' + 1 := by
+  by_cases h0 : 1 ≤ i
+  · rcases Difflib.look_ok (hm h0) j' with h | h
+    · omega
+    · obtain ⟨h1, _, h3, _⟩ := h; omega
+  · have : j2len = [] := hprev (by omega)
+    subst this; simp [Difflib.look]
+
+/-- **the outer loop agrees with the hand port's `outer`**, for an arbitrary body `F` that, where `a[i]`
+    exists, runs the inner loop over `b2j[a[i]]` from an empty `newj2len` and stores it in `j2len` -/
+theorem outer_sim (a b : List (List UInt8)) (alo ahi blo bhi : Nat) (hahi : ahi ≤ a.length)
+    (F : Int → FSt → Option (ForInStep FSt))
+    (hF : ∀ (i : Nat) (x : List UInt8) (s : FSt), a[i]? = some x →
+      F (i : Int) s = some (ForInStep.yield (runSteps (innerStepI blo bhi i s.2.2.2)
+        ((Difflib.b2j b x).map (fun (j : Nat) => (j : Int))) (s.1, s.2.1, s.2.2.1, [])))) :
+    ∀ (n i : Nat) (j2len : List (Nat × Nat)) (best : Difflib.Match) (jl : List (Int × Int)),
+      i + n = ahi → alo ≤ i → (i = alo → j2len = []) →
+      (1 ≤ i → Difflib.MapOK a b alo blo bhi (i - 1) j2len) →
+      Difflib.BestOK a b alo ahi blo bhi best → R jl j2len →
+      ∃ jl', forIn (m := Option) (GoSem.intRangeAux (i : Int) n) (stI best jl) F =
+        some (stI (Difflib.outer a b blo bhi n i j2len best) jl') := by
+  intro n
+  induction n with
+  | zero => intro i j2len best jl _ _ _ _ _ _; exact ⟨jl, rfl⟩
+  | succ n ih =>
+    intro i j2len best jl hin hi hprev hm hb hR
+    have hlt : i < a.length := by omega
+    obtain ⟨x, hx⟩ : ∃ x, a[i]? = some x := ⟨a[i], by simp [hlt]⟩
+    rw [GoSem.intRangeAux, List.forIn_cons, hF i x _ hx]
+    simp only [Option.bind_eq_bind, Option.bind_some, Difflib.outer, hx]
+    obtain ⟨nwI', e, hR'⟩ := inner_sim blo bhi i j2len jl hR (look_bounds hi hprev hm) (Difflib.b2j b x) [] [] R_nil best
+    have e' : runSteps (innerStepI blo bhi i (stI best jl).2.2.2) ((Difflib.b2j b x).map (fun (j : Nat) => (j : Int)))
+        ((stI best jl).1, (stI best jl).2.1, (stI best jl).2.2.1, []) =
+        stI (Difflib.inner blo bhi i j2len (Difflib.b2j b x) [] best).2 nwI' := e
+    rw [e']
+    have h := Difflib.inner_ok (ahi := ahi) hi (by omega) hx j2len hprev hm (Difflib.b2j b x)
+      (fun j hj => Difflib.b2j_mem hj) [] (by intro p hp; simp at hp) best hb
+    have ec : ((i : Int) + 1) = ((i + 1 : Nat) : Int) := by omega
+    rw [ec]
+    exact ih (i + 1) _ _ nwI' (by omega) (by omega) (by omega) (fun _ => by simpa using h.1) h.2 hR'
 
 end GoSnaps.Tie.DifflibGen
